@@ -25,6 +25,13 @@ type fact struct {
 	Why  string
 }
 
+// windowFact: len(own) ≡ len(l0) modulo step (a consuming window phi(S0, phi[step:])).
+type windowFact struct {
+	own  string
+	l0   lin
+	step int64
+}
+
 type congruence struct {
 	M, R int64 // value ≡ R (mod M); M == 0: value == R exactly; M == 1: unknown
 }
@@ -275,6 +282,7 @@ func (pr *Prover) lenOfOperand(x ssa.Value) lin {
 type factSet struct {
 	facts         []fact
 	cong          map[string]congruence
+	windows       []windowFact
 	seen          map[string]bool
 	sums          [][3]lin // s[0] = s[1] + s[2]
 	narrow        []narrowing
@@ -607,7 +615,34 @@ func (pr *Prover) lenFacts(fs *factSet, s ssa.Value, depth int) {
 		fs.le(a, b, 0, "changetype")
 		fs.le(b, a, 0, "changetype")
 	case *ssa.Phi:
-		// len(phi) <= max over edges is not expressible; keep len >= 0 only
+		// len(phi) <= max over edges is not expressible in general. A consuming window - phi(S0, phi[k:]) with a
+		// constant k > 0 - never grows and keeps its length modulo k: len(phi) <= len(S0), len(phi) ≡ len(S0) (mod k)
+		{
+			var init ssa.Value
+			step := int64(0)
+			okW := len(x.Edges) >= 2
+			for _, e := range x.Edges {
+				if sl, isSl := e.(*ssa.Slice); isSl && sl.X == ssa.Value(x) && sl.High == nil && sl.Max == nil && sl.Low != nil {
+					if k, isC := constInt(sl.Low); isC && k > 0 && (step == 0 || step == k) {
+						step = k
+						continue
+					}
+				}
+				if init != nil && init != e {
+					okW = false
+				}
+				init = e
+			}
+			if okW && init != nil && step > 0 {
+				own := lin{"len(" + pr.K.Key(s) + ")", 0}
+				l0 := pr.linLen(init, "len")
+				fs.le(own, l0, 0, "consuming window never grows")
+				pr.lenFacts(fs, init, depth+1)
+				// the congruence of len(S0) may only become known later (facts are collected in no particular order):
+				// remembered, and derived in the second pass
+				fs.windows = append(fs.windows, windowFact{own.T, l0, step})
+			}
+		}
 	case *ssa.UnOp:
 		if x.Op == token.MUL {
 			if fa, ok := x.X.(*ssa.FieldAddr); ok {
@@ -794,6 +829,11 @@ func (pr *Prover) collect(at ssa.Instruction, operands ...ssa.Value) *factSet {
 // secondPass: uses bounds derived so far for three-variable sums, narrowing conversions,
 // remainders of non-negative values, callee summaries and congruence strengthening.
 func (pr *Prover) secondPass(fs *factSet) {
+	for _, w := range fs.windows {
+		if c0, have := fs.cong[w.l0.T]; have && c0.M > 1 && w.step%c0.M == 0 {
+			fs.cong[w.own] = congruence{c0.M, ((c0.R+w.l0.Off)%c0.M + c0.M) % c0.M}
+		}
+	}
 	for round := 0; round < 3; round++ {
 		n := len(fs.facts)
 		g := newGraph(fs.facts)
@@ -1484,6 +1524,20 @@ func modFields(p *Prog, fn *ssa.Function, onStack map[*ssa.Function]bool) (map[*
 				case "hash", "io":
 					continue
 				}
+			}
+			// EXT: Error() of an error value and String() of a fmt.Stringer are observers (they write no field of
+			// the library's structures); the module's own implementations are still followed through Callees
+			if (cc.Method.Name() == "Error" || cc.Method.Name() == "String") && cc.Method.Type().(*types.Signature).Params().Len() == 0 {
+				for _, g := range cs.Callees {
+					m, u := modFields(p, g, onStack)
+					for k := range m {
+						out[k] = true
+					}
+					if u {
+						unknown = true
+					}
+				}
+				continue
 			}
 			if cs.ExtIface != "" {
 				unknown = true
